@@ -1,11 +1,19 @@
 package main
 
 import (
+	"verif/harness/c06"
+	"verif/harness/c07"
+	"verif/harness/c11"
 	"verif/harness/c17"
 	"verif/harness/c19"
+	"verif/harness/c20"
 )
 
 func init() {
 	cmds["c17"] = c17.Run
 	cmds["c19"] = c19.Run
+	cmds["c11"] = c11.Run
+	cmds["c07"] = c07.Run
+	cmds["c06"] = func(a []string) { c06.ShardArgsPrefix = []string{"c06"}; c06.Run(a) }
+	cmds["c20"] = func(a []string) { c20.ShardArgsPrefix = []string{"c20"}; c20.Run(a) }
 }
